@@ -499,12 +499,15 @@ def _one(tokens, fails, label, required_use=False):
         same = False
     if not same and len(fails) < 4:
         fails.append({"model": {"dep_str": s}, "detail": f"{s!r} renders as {text!r}, which does not parse back to an equal structure"})
-    for k in range(3):
+    for k, touched in [(k_, t_) for t_ in (False, True) for k_ in range(3)]:
+        if touched and k == 0:
+            d.node_conds     # what consumers of the structure read between evaluations (the per-leaf conditions); evaluation afterwards is the same evaluation
         for flags in itertools.combinations(("x", "y"), k):
             ev = d.evaluate_depset(list(flags))
             if _has_cond(ev):
                 if len(fails) < 4:
-                    fails.append({"model": {"dep_str": s, "flags": list(flags)}, "detail": f"{s!r} evaluated under {list(flags)} still contains a conditional: {ev}"})
+                    fails.append({"model": {"dep_str": s, "flags": list(flags), "after_reading_node_conds": touched},
+                                  "detail": f"{s!r} evaluated under {list(flags)}{' (after its node_conds was read)' if touched else ''} still contains a conditional: {ev}"})
                 continue
             for tk in range(3):
                 for toks in itertools.combinations(("a", "b"), tk):
@@ -546,6 +549,11 @@ def enum_depstrings(seed):
             if "^^" in tokens or "??" in tokens:
                 strings += 1
                 cases += _one(list(tokens), fails, "exhaustive", required_use=True)
+    # conditionals inside exactly-one / at-most-one groups (longer than the exhaustive bound reaches), also below any-of and inside one another
+    for text in ("^^ ( x? ( a ) b )", "?? ( a !y? ( b ) )", "|| ( a ^^ ( b x? ( a ) ) )", "^^ ( x? ( a ) y? ( b ) )", "?? ( x? ( a b ) )", "x? ( ^^ ( a b ) )", "^^ ( a !x? ( !b ) )",
+                 "?? ( x? ( a ) b ) x? ( a )", "^^ ( ( x? ( a ) ) b )", "?? ( ^^ ( y? ( a ) b ) a )", "^^ ( x? ( y? ( a ) ) b )", "|| ( ?? ( !x? ( a ) b ) !b )"):
+        strings += 1
+        cases += _one(text.split(), fails, "fixed", required_use=True)
     r = random.Random(seed)
     for _ in range(20000 if thorough else 4000):
         t = gen_tree(r, 3)
@@ -561,7 +569,7 @@ def enum_depstrings(seed):
         strings += 1
         cases += _one(t, fails, "random")
     return {"name": "C09.DepSet.parse_str_evaluate.bounded_enumeration",
-            "bound": f"every string of <= {N} tokens over {TOK}, every such string over {TOK2} (REQUIRED_USE operators) containing ^^ or ??, plus seeded random nested strings (depth <= 3) with single-token corruptions: accept/reject against the grammar, "
+            "bound": f"every string of <= {N} tokens over {TOK}, every such string over {TOK2} (REQUIRED_USE operators) containing ^^ or ??, 12 fixed strings with conditionals inside ^^ / ?? groups, plus seeded random nested strings (depth <= 3) with single-token corruptions: accept/reject against the grammar, "
                      "str/parse round trip, evaluate_depset under every subset of {x, y} compared on every subset of {a, b}",
             "cases": cases, "failures": fails}
 
